@@ -385,8 +385,13 @@ func genHist(g *genCtx) {
 		}
 		return string(b)
 	}
-	names := []string{"rawA", "rawB", "rawfail"}
 	for i := 0; i < n; i++ {
+		// per-command-name counters: most histories use three names, every fourth one nine (more names than any small
+		// per-connection cache of counters would hold)
+		names := []string{"rawA", "rawB", "rawfail"}
+		if i%4 == 1 {
+			names = []string{"rawA", "rawB", "rawfail", "rawC", "rawD", "rawE", "rawF", "rawG", "rawH"}
+		}
 		length := 5 + g.rng.Intn(56) // histories up to 60 events
 		var evs []string
 		dialled, inSess := false, false
@@ -413,7 +418,7 @@ func genHist(g *genCtx) {
 				inSess = false
 			case k >= 6 && k <= 8 && inSess:
 				s := script(5)
-				evs = append(evs, "c:"+names[g.rng.Intn(3)]+":"+s)
+				evs = append(evs, "c:"+names[g.rng.Intn(len(names))]+":"+s)
 				hasRetry = hasRetry || len(s) > 1
 			case k >= 9 && dialled && g.rng.Intn(5) == 0:
 				// every attempt unacceptable, then the caller's context ends during the back-off sleep
@@ -421,11 +426,11 @@ func genHist(g *genCtx) {
 				for i := range b {
 					b[i] = "BTXG"[g.rng.Intn(4)]
 				}
-				evs = append(evs, "l:"+names[g.rng.Intn(3)]+":"+string(b)+"K")
+				evs = append(evs, "l:"+names[g.rng.Intn(len(names))]+":"+string(b)+"K")
 				hasRetry = hasRetry || len(b) > 1
 			case k >= 9 && dialled:
 				s := script(5)
-				evs = append(evs, "l:"+names[g.rng.Intn(3)]+":"+s)
+				evs = append(evs, "l:"+names[g.rng.Intn(len(names))]+":"+s)
 				hasRetry = hasRetry || len(s) > 1
 			}
 		}
